@@ -49,8 +49,11 @@ RULE = ("layouts built from block-occupancy vectors over nr x nc grids of unit b
         "get_params), an instance built and used with another seed and then set_params(random_state=seed) (plain attribute "
         "assignment while the splitters have no set_params), ONE instance used first on other data sets (the same points in reversed row order, then the points "
         "mirrored inside the bounding box: same size and bounding box, other order/positions; separately a shifted and "
-        "stretched copy: same size, other bounding box) and then on the case's data, and X in other memory layouts (np.asfortranarray, transposed view of a 2 x n array, "
-        "strided column view of a wider array; block_split labels must be identical too) - thorough: all six variants on "
+        "stretched copy: same size, other bounding box) and then on the case's data, interleaved / nested use of ONE instance (a live split(X) generator "
+        "is continued after split() was started on the mirrored data and consumed partly, on X[train] of its first fold and "
+        "consumed fully, and zip(split(X), split(shorter reordered data)): the outer generator must keep yielding the reference "
+        "folds and the inner one the folds of a fresh instance on its own data), and X in other memory layouts (np.asfortranarray, transposed view of a 2 x n array, "
+        "strided column view of a wider array; block_split labels must be identical too) - thorough: all seven variants on "
         "every random/malformed case and two (rotating) on every exhaustive case; quick: one (rotating) per case. Float test/train sizes whose exact "
         "product with the number of blocks is within 1e-9 of an integer without being one are excluded (counted in "
         "EXTRA). A case is non-trivial when the cross-validator yields folds over >= 2 occupied blocks; distinct = "
@@ -161,7 +164,89 @@ def _split(cv, X):
         return ("other", type(exc).__name__)
 
 
-VARIANTS = ["clone", "set_params", "reuse", "fortran", "transposed", "strided"]
+VARIANTS = ["clone", "set_params", "reuse", "interleaved", "fortran", "transposed", "strided"]
+
+
+class _Gen:
+    """a live cv.split(D) generator that is advanced a few folds at a time"""
+
+    def __init__(self, cv, D):
+        self.out, self.err, self.done = [], None, False
+        self.g = cv.split(D)
+
+    def take(self, k=None):
+        while not self.done and (k is None or k > 0):
+            try:
+                tr, te = next(self.g)
+                self.out.append(([int(i) for i in tr], [int(i) for i in te]))
+            except StopIteration:
+                self.done = True
+            except ValueError:
+                self.err, self.done = ("ValueError",), True
+            except Exception as exc:  # pragma: no cover
+                self.err, self.done = ("other", type(exc).__name__), True
+            if k is not None:
+                k -= 1
+        return self
+
+    def result(self):
+        return self.err if self.err is not None else ("ok", self.out)
+
+
+def _folds(obs):
+    """an observation without the warning flag"""
+    return ("ok", obs[2]) if obs[0] == "ok" else tuple(obs)
+
+
+def _interleaved(make, seed, X, A):
+    """nested / interleaved use of ONE instance: a live split(X) generator must keep yielding the folds of a
+    fresh instance on X while split() is started (and consumed partly or fully) on other data, and that
+    other generator must yield the folds of a fresh instance on its own data"""
+    failed = []
+    refA = _folds(A)
+    n = X.shape[0]
+    with warnings.catch_warnings():
+        warnings.simplefilter("ignore")
+        oth = _other_datasets(X)
+        # 1. same size: alternate
+        Y = oth["mirrored"]
+        refY = _folds(_split(_construct(make, seed), Y))
+        cv = _construct(make, seed)
+        if not isinstance(cv, tuple):
+            g1 = _Gen(cv, X).take(1)
+            g2 = _Gen(cv, Y).take(1)
+            g1.take()
+            g2.take()
+            if g1.result() != refA:
+                failed.append("interleaved-outer-same-size")
+            if g2.result() != refY:
+                failed.append("interleaved-inner-same-size")
+        # 2. nested cross-validation: the inner data are the outer training points
+        cv = _construct(make, seed)
+        if not isinstance(cv, tuple):
+            g1 = _Gen(cv, X).take(1)
+            if g1.out:
+                Y = X[np.array(g1.out[0][0], dtype=int)]
+                refY = _folds(_split(_construct(make, seed), Y))
+                g2 = _Gen(cv, Y).take()
+                g1.take()
+                if g1.result() != refA:
+                    failed.append("nested-outer")
+                if g2.result() != refY:
+                    failed.append("nested-inner")
+        # 3. zip of two generators over data sets of different sizes
+        Y = oth["reordered"][: max(1, n - max(1, n // 3))]
+        refY = _folds(_split(_construct(make, seed), Y))
+        cv = _construct(make, seed)
+        if not isinstance(cv, tuple) and refA[0] == "ok" and refY[0] == "ok":
+            try:
+                pairs = [(([int(i) for i in a[0]], [int(i) for i in a[1]]), ([int(i) for i in b[0]], [int(i) for i in b[1]]))
+                         for a, b in zip(cv.split(X), cv.split(Y))]
+            except Exception as exc:
+                pairs = type(exc).__name__
+            if pairs != list(zip(refA[1], refY[1])):
+                failed.append("zip-of-two-generators")
+    return failed
 
 
 def _other_datasets(X):
@@ -240,6 +325,8 @@ def _observe(vd, make, seed, x, y, X, bargs, labels, variants, ncalls=3):
         _split(cvr, oth["other-bbox"])
         if _split(cvr, X) != A:
             failed.append("reuse-after-other-bbox-data")
+    if "interleaved" in variants:
+        failed += _interleaved(make, seed, X, A)
     lay = _layouts(x, y)
     for name in ("fortran", "transposed", "strided"):
         if name in variants:
@@ -264,7 +351,11 @@ def _repro_src(x, y, ctor):
             "print('one instance, split() calls 1-3:', [[te.tolist() for _, te in cv.split(X)] for call in (1, 2, 3)]); "
             "cv = mk(); M = np.column_stack([X[:, 0].min() + X[:, 0].max() - X[:, 0], X[:, 1].min() + X[:, 1].max() - X[:, 1]]); "
             "[list(cv.split(D)) for D in (X[::-1].copy(), M)]; "
-            "print('same parameters, after use on reordered and mirrored data:', [te.tolist() for _, te in cv.split(X)])"
+            "print('same parameters, after use on reordered and mirrored data:', [te.tolist() for _, te in cv.split(X)])\n"
+            "cv = mk(); g1 = cv.split(X); first = next(g1); g2 = cv.split(M); inner = [next(g2)[1].tolist()]; "
+            "outer = [first[1].tolist()] + [te.tolist() for _, te in g1]; inner += [te.tolist() for _, te in g2]\n"
+            "print('interleaved on one instance: split(X) continued after split(mirrored) was started:', outer, "
+            "'| split(mirrored):', inner, '| fresh instance on mirrored:', [te.tolist() for _, te in mk().split(M)])"
             % (x, y, ctor))
 
 
@@ -796,5 +887,5 @@ def search(dis, tier, seed):
         + _kfold_exhaustive("quick", rnd) + _bss_exhaustive("quick", rnd) + _pbs("quick", rnd)
     for k, sp in enumerate(specs):
         if sp["cv"] != "pbs":
-            sp.update(variant=k // 2, all_variants=False, nvariants=2, ncalls=3)
+            sp.update(variant=k // 2, all_variants=False, nvariants=3, ncalls=3)
     return _run(specs, rnd)
